@@ -124,6 +124,7 @@ func fillRecord(rec *RunRecord, k *Kernel, reason string) {
 
 func runWorld(t *testing.T, p *Plan, rec *RunRecord, keepLog bool) {
 	k := NewKernel(p, keepLog)
+	k.Strict = os.Getenv("VERIF_STRICT") != "0"
 	k.OnFatal = func(v *Violation) {
 		// a busy loop cannot be unwound: report and leave the process
 		fillRecord(rec, k, "spin")
